@@ -340,6 +340,13 @@ func report(p *propSpec, tier string, seed int, results []UnitResult, t0 time.Ti
 	}
 	exit := 0
 	var lines []string
+	if os.Getenv("GOSYM_SLOWEST") != "" {
+		rs := append([]UnitResult(nil), results...)
+		sort.Slice(rs, func(i, j int) bool { return rs[i].WallS > rs[j].WallS })
+		for i := 0; i < 8 && i < len(rs); i++ {
+			fmt.Fprintf(os.Stderr, "  slow: %.1fs (solver %.1fs, %d paths, %d queries) %s\n", rs[i].WallS, rs[i].SolverS, rs[i].Paths, rs[i].Queries, rs[i].Unit.ID)
+		}
+	}
 	if !canaryOK {
 		broken = append(broken, "vacuity canary: the always-false assertion was not reported")
 	}
